@@ -22,6 +22,7 @@ DECIDED = [
     'R5: process_cmdline restores consecutive list indices (read right-to-left) to their written order.',
     'R4: process_cmdline defaults to a tag whose constructor sets allow_new=False and build_from_cmdline does not override it; !new/!notnew constructors set exactly allow_new.',
     'R6: ComposedNode.ayns._require_all_new evaluated on 36 rows (own / child allow_new x include_self default / True / False x exceptions): the node itself is checked by default; any checked node that forbids new paths raises unless excepted.',
+    'R7: errors can be built (see C09.R5): the MergeError a forbidden new path is reported with does not fail while it is constructed.',
 ]
 UNDECIDED = ['the a.b[i].c=value text grammar;', '"nothing else changes" as data.']
 
@@ -263,6 +264,7 @@ def check(repo, run, tier):
     g(r5, repo, run)
     g(unitrules.require_all_new_table, repo, run, 'C08.R6')
     g(unitrules.removed_root_excepted, repo, run, 'C08.R1')
+    g(unitrules.errors_constructible, repo, run, 'C08.R7')
     g.done()
 
 
